@@ -54,6 +54,7 @@ func runC04(p *core.Prog, r *core.Result) {
 		"R4.4 on the no-cycle path results[i].Error = wait(targets[i]) and results[i].Target = targets[i].target for the same i, for all i",
 		"R4.5/R4.6 wait loops re-test under lock, every writer of the waited-for state wakes the waiters on all exits",
 		"R4.7 Run returns wait() of the target obtained for the requested label",
+		"R4.10 EvaluateTargets answers positionally: the slice of targets it starts, checks and waits for holds getTarget(labels[i]) at index i for every i (or is appended to once per label, unconditionally, in order), and the results slice has len(labels) elements - so results[i] is the outcome of labels[i] even when a label is listed twice",
 		"R4.9 the loader the runner calls is injective on labels: (*Project).LoadTarget hands out the registry entry stored under the canonical string of exactly the label it was asked for - the runner deduplicates by label string, so a second lookup under another key (an alias, a default name) gives one target two runner entries and it executes twice",
 		"R4.8 the only outcome that lets a requester continue without waiting - the cyclic-dependency error - is constructed only where the walk over published waiting sets has come back to the requester's own target (a diamond or a repeated label is not a cycle)",
 	}
@@ -186,6 +187,7 @@ func runC04(p *core.Prog, r *core.Result) {
 
 	// R4.4 results wiring
 	checkResultsWiring(p, r, a)
+	checkLabelsWiring(p, r, a, "R4.10")
 
 	// R4.5 / R4.6
 	waits := findWaits(p, r, "R4.5")
@@ -550,6 +552,308 @@ func checkResultsWiring(p *core.Prog, r *core.Result, a *runnerAnchors) {
 		r.Check(okTgt, "R4.4", construct+":Target", pos, "results[i].Target receives targets[i].target, read after wait() returned", "results[i].Target is not targets[i].target read after the wait")
 		r.Check(full && !early, "R4.4", construct+":all", pos, "the wait loop runs over every requested target (index 0..len-1) without early exit", "the wait loop may skip requested targets (index does not run 0..len(targets)-1 or the body can leave the loop)")
 	}
+}
+
+// checkLabelsWiring implements R4.10: labels[i] -> targets[i] (R4.4 continues targets[i] -> results[i]).
+func checkLabelsWiring(p *core.Prog, r *core.Result, a *runnerAnchors, rule string) {
+	fn := a.evalTargets
+	if len(fn.Params) < 2 {
+		r.Unk(rule, "runner.(*engine).EvaluateTargets#labels", p.Pos(fn.Pos()), "no labels parameter")
+		return
+	}
+	labels := ssa.Value(fn.Params[len(fn.Params)-1])
+	fill := fn
+	// the fill loop may live in a helper that is handed the labels as they are
+	if len(core.CallsTo(fn, a.getTarget)) == 0 {
+		for _, c := range core.Calls(fn) {
+			h := core.Callee(c)
+			if _, ok := c.(*ssa.Call); !ok || h == nil || h.Pkg != fn.Pkg || h.Blocks == nil || len(core.CallsTo(h, a.getTarget)) == 0 {
+				continue
+			}
+			for i, arg := range c.Common().Args {
+				if arg == labels && i < len(h.Params) {
+					fill, labels = h, h.Params[i]
+				}
+			}
+			break
+		}
+	}
+	gets := core.CallsTo(fill, a.getTarget)
+	r.Floor(rule, len(gets), 1, "getTarget calls that fill the requested set")
+	isLabels := func(v ssa.Value) bool { return v == labels }
+	// symbolic lengths: "this int is len(labels)" / "this slice has len(labels) elements", followed through cells stored
+	// once, same-package helpers (their returns, with parameters standing for the arguments of the call) and len()
+	type lenv struct {
+		call   *ssa.Call
+		parent *lenv
+	}
+	var sliceLenIsE func(v ssa.Value, e *lenv, depth int) bool
+	var intIsLenE func(v ssa.Value, e *lenv, depth int) bool
+	param := func(v ssa.Value, e *lenv) (ssa.Value, *lenv, bool) {
+		prm, ok := v.(*ssa.Parameter)
+		if !ok || e == nil || core.Callee(e.call) != prm.Parent() {
+			return nil, nil, false
+		}
+		i := paramIndex(prm.Parent(), prm)
+		if i < 0 || i >= len(e.call.Call.Args) {
+			return nil, nil, false
+		}
+		return e.call.Call.Args[i], e.parent, true
+	}
+	helperReturns := func(c *ssa.Call, e *lenv, depth int, check func(v ssa.Value, e *lenv, depth int) bool) bool {
+		h := core.Callee(c)
+		if h == nil || h.Pkg != fn.Pkg || h.Blocks == nil || c.Call.IsInvoke() {
+			return false
+		}
+		rets := core.ReturnsOf(h)
+		for _, ret := range rets {
+			vals := core.RetVals(ret)
+			if len(vals) == 0 || !check(vals[0], &lenv{call: c, parent: e}, depth+1) {
+				return false
+			}
+		}
+		return len(rets) > 0
+	}
+	intIsLenE = func(v ssa.Value, e *lenv, depth int) bool {
+		if depth > 24 {
+			return false
+		}
+		if a, pe, ok := param(v, e); ok {
+			return intIsLenE(a, pe, depth+1)
+		}
+		c, ok := v.(*ssa.Call)
+		if !ok {
+			return false
+		}
+		if b, ok := c.Call.Value.(*ssa.Builtin); ok {
+			return b.Name() == "len" && sliceLenIsE(c.Call.Args[0], e, depth+1)
+		}
+		return helperReturns(c, e, depth, intIsLenE)
+	}
+	sliceLenIsE = func(v ssa.Value, e *lenv, depth int) bool {
+		if depth > 24 {
+			return false
+		}
+		if e == nil && (isLabels(v) || v == ssa.Value(fn.Params[len(fn.Params)-1])) {
+			return true
+		}
+		if e != nil && e.parent == nil && fill != fn && core.Callee(e.call) == fill && isLabels(v) {
+			return true
+		}
+		if a, pe, ok := param(v, e); ok {
+			return sliceLenIsE(a, pe, depth+1)
+		}
+		switch x := v.(type) {
+		case *ssa.MakeSlice:
+			return intIsLenE(x.Len, e, depth+1)
+		case *ssa.UnOp:
+			if x.Op == token.MUL {
+				if sv := core.SingleStore(x.X); sv != nil {
+					return sliceLenIsE(sv, e, depth+1)
+				}
+				// the set filled by appending once per label (the label-wiring obligations check exactly that): a cell that
+				// starts empty and is only ever re-assigned by the fill loop's append
+				if al, ok := x.X.(*ssa.Alloc); ok && e == nil {
+					nApp, okAll := 0, true
+					for _, f := range core.WithAnons(al.Parent()) {
+						core.Instrs(f, func(in ssa.Instruction) {
+							st, ok := in.(*ssa.Store)
+							if !ok || st.Addr != ssa.Value(al) {
+								return
+							}
+							if ap, ok := st.Val.(*ssa.Call); ok {
+								if b, ok := ap.Call.Value.(*ssa.Builtin); ok && b.Name() == "append" {
+									inFill := false
+									for _, g := range gets {
+										if g.Block() == ap.Block() {
+											inFill = true
+										}
+									}
+									if inFill {
+										nApp++
+										return
+									}
+								}
+							}
+							if !appendStartsEmpty(st.Val) {
+								okAll = false
+							}
+						})
+					}
+					return okAll && nApp > 0
+				}
+			}
+		case *ssa.Call:
+			if fill != fn && core.Callee(x) == fill && e == nil {
+				return true // the set the fill helper returns: its shape is what the label-wiring obligations check
+			}
+			return helperReturns(x, e, depth, sliceLenIsE)
+		}
+		return false
+	}
+	sliceLenIs := func(v ssa.Value, depth int) bool {
+		if v.Parent() == fill && fill != fn {
+			// inside the fill helper: its labels parameter is the requested list
+			if isLabels(v) {
+				return true
+			}
+			switch x := v.(type) {
+			case *ssa.MakeSlice:
+				if c, ok := x.Len.(*ssa.Call); ok {
+					if b, ok := c.Call.Value.(*ssa.Builtin); ok && b.Name() == "len" && isLabels(c.Call.Args[0]) {
+						return true
+					}
+				}
+				return false
+			case *ssa.UnOp:
+				if x.Op == token.MUL {
+					if sv := core.SingleStore(x.X); sv != nil {
+						if ms, ok := sv.(*ssa.MakeSlice); ok {
+							if c, ok := ms.Len.(*ssa.Call); ok {
+								if b, ok := c.Call.Value.(*ssa.Builtin); ok && b.Name() == "len" && isLabels(c.Call.Args[0]) {
+									return true
+								}
+							}
+						}
+					}
+				}
+				return false
+			}
+			return false
+		}
+		return sliceLenIsE(v, nil, depth)
+	}
+	for i, gc := range gets {
+		g, ok := gc.(*ssa.Call)
+		construct := fmt.Sprintf("runner.(*engine).EvaluateTargets#label-wiring-%d", i+1)
+		if !ok {
+			r.Bad(rule, construct, p.InstrPos(gc.(ssa.Instruction)), "getTarget is not called synchronously")
+			continue
+		}
+		pos := p.InstrPos(g)
+		// the label asked for is labels[idx]
+		var lIdx *ssa.IndexAddr
+		if ld, ok := g.Call.Args[len(g.Call.Args)-1].(*ssa.UnOp); ok && ld.Op == token.MUL {
+			if ia, ok := ld.X.(*ssa.IndexAddr); ok && isLabels(ia.X) {
+				lIdx = ia
+			}
+		}
+		if lIdx == nil {
+			r.Bad(rule, construct, pos, "the label handed to getTarget is not an element labels[i] of the requested labels")
+			continue
+		}
+		full := p.LoopIndexCoversAll(lIdx.Index, labels, g, sameSlice)
+		// every iteration reaches the getTarget call: it sits in the block that reads labels[i]
+		uncond := g.Block() == lIdx.Block()
+		stored, sameIdx, lenOK := false, false, false
+		for _, ref := range *g.Referrers() {
+			switch u := ref.(type) {
+			case *ssa.Store:
+				if ia, ok := u.Addr.(*ssa.IndexAddr); ok && u.Val == ssa.Value(g) {
+					if _, isArr := ia.X.Type().Underlying().(*types.Pointer); isArr {
+						// the one-element array of a variadic append(targets, getTarget(...))
+						for _, ref2 := range *ia.X.Referrers() {
+							sl, ok := ref2.(*ssa.Slice)
+							if !ok {
+								continue
+							}
+							for _, ref3 := range *sl.Referrers() {
+								if ap, ok := ref3.(*ssa.Call); ok {
+									if b, ok := ap.Call.Value.(*ssa.Builtin); ok && b.Name() == "append" && ap.Block() == g.Block() && appendStartsEmpty(ap.Call.Args[0]) {
+										stored, sameIdx, lenOK = true, true, true
+									}
+								}
+							}
+						}
+						continue
+					}
+					stored = true
+					sameIdx = ia.Index == lIdx.Index
+					lenOK = sliceLenIs(ia.X, 0)
+				}
+			}
+		}
+		r.Check(stored && sameIdx, rule, construct+":index", pos, "getTarget(labels[i]) is stored at index i of the requested set (or appended in order)", "the target obtained for labels[i] does not land at position i of the set that is started and waited for: results are attributed to the wrong labels")
+		r.Check(full && uncond, rule, construct+":all", pos, "the fill loop visits every label (index 0..len(labels)-1) and obtains a target in every iteration", "the fill loop can skip a label (conditional getTarget, or an index that does not run 0..len(labels)-1): the results are shorter than, or shifted against, the labels")
+		r.Check(lenOK, rule, construct+":len", pos, "the requested set has len(labels) elements", "the requested set is not created with len(labels) elements")
+	}
+	// the slice returned has len(labels) elements
+	n := 0
+	for _, ret := range core.ReturnsOf(fn) {
+		vals := core.RetVals(ret)
+		if len(vals) != 1 {
+			continue
+		}
+		n++
+		ok := sliceLenIs(vals[0], 0)
+		r.Check(ok, rule, fmt.Sprintf("runner.(*engine).EvaluateTargets#results-len-%d", n), p.InstrPos(ret), "the results slice returned has len(labels) elements", "the results slice returned does not have len(labels) elements: callers index it by the position of the label")
+	}
+	r.Floor(rule, n, 1, "returns of EvaluateTargets")
+}
+
+func resolveMakeSlice(v ssa.Value) (*ssa.MakeSlice, bool) {
+	for i := 0; i < 4; i++ {
+		switch x := v.(type) {
+		case *ssa.MakeSlice:
+			return x, true
+		case *ssa.UnOp:
+			if x.Op == token.MUL {
+				if sv := core.SingleStore(x.X); sv != nil {
+					v = sv
+					continue
+				}
+			}
+		}
+		break
+	}
+	return nil, false
+}
+
+// appendStartsEmpty: the slice appended to is, through the loop phi / its cell, initially empty (nil or make(_, 0, …)).
+func appendStartsEmpty(v ssa.Value) bool {
+	seen := map[ssa.Value]bool{}
+	var walk func(v ssa.Value) bool
+	walk = func(v ssa.Value) bool {
+		if seen[v] {
+			return true
+		}
+		seen[v] = true
+		switch x := v.(type) {
+		case *ssa.Const:
+			return x.IsNil()
+		case *ssa.MakeSlice:
+			k, ok := core.ConstInt(x.Len)
+			return ok && k == 0
+		case *ssa.Phi:
+			for _, e := range x.Edges {
+				if !walk(e) {
+					return false
+				}
+			}
+			return true
+		case *ssa.Call:
+			if b, ok := x.Call.Value.(*ssa.Builtin); ok && b.Name() == "append" {
+				return walk(x.Call.Args[0])
+			}
+		case *ssa.UnOp:
+			if al, ok := x.X.(*ssa.Alloc); ok && x.Op == token.MUL {
+				okAll, n := true, 0
+				for _, f := range core.WithAnons(al.Parent()) {
+					core.Instrs(f, func(in ssa.Instruction) {
+						if st, ok := in.(*ssa.Store); ok && st.Addr == ssa.Value(al) {
+							n++
+							if !walk(st.Val) {
+								okAll = false
+							}
+						}
+					})
+				}
+				return okAll && n > 0
+			}
+		}
+		return false
+	}
+	return walk(v)
 }
 
 func sameSlice(a, b ssa.Value) bool {
@@ -946,30 +1250,82 @@ func runC09(p *core.Prog, r *core.Result) {
 		r.Check(ok, "R9.2", "runner.(*gate).enter#decrement-after-nonzero", p.InstrPos(st), "the slot is taken only on the edge where capacity was tested non-zero", "the slot is taken without capacity having been tested non-zero: more targets than the limit can run")
 	})
 
-	// R9.5 work inside a slot
-	for _, c := range core.Calls(a.run) {
-		cc := c.Common()
-		if !cc.IsInvoke() {
-			continue
+	// R9.5 work inside a slot: every invoke of Targets.LoadTarget / Target.Evaluate in package runner happens in run (or in a
+	// helper all of whose call sites do) after enter and before any exit
+	var insideSlot func(ci ssa.Instruction, depth int) bool
+	insideSlot = func(ci ssa.Instruction, depth int) bool {
+		fn := ci.Parent()
+		if fn == a.run {
+			ok := false
+			for _, e := range core.CallsTo(a.run, a.enter) {
+				if _, d := e.(*ssa.Defer); !d && core.Dominates(e.(ssa.Instruction), ci) {
+					ok = true
+				}
+			}
+			for _, e := range core.CallsTo(a.run, a.exit) {
+				if _, d := e.(*ssa.Defer); !d && core.InstrReaches(e.(ssa.Instruction), ci) {
+					ok = false
+				}
+			}
+			return ok
 		}
-		m := cc.Method.Name()
-		if m != "LoadTarget" && m != "Evaluate" {
-			continue
+		if depth >= 4 {
+			return false
 		}
-		ci := c.(ssa.Instruction)
-		ok := false
-		for _, e := range core.CallsTo(a.run, a.enter) {
-			if _, d := e.(*ssa.Defer); !d && core.Dominates(e.(ssa.Instruction), ci) {
-				ok = true
+		if fn.Parent() != nil {
+			// a function literal: every use of the closure value is an immediate call inside the slot
+			n, all := 0, true
+			core.Instrs(fn.Parent(), func(in ssa.Instruction) {
+				mc, ok := in.(*ssa.MakeClosure)
+				if !ok || mc.Fn != fn {
+					return
+				}
+				for _, u := range *mc.Referrers() {
+					call, isCall := u.(*ssa.Call)
+					if !isCall || call.Call.Value != mc || !insideSlot(call, depth+1) {
+						all = false
+					}
+					n++
+				}
+			})
+			return n > 0 && all
+		}
+		callers := p.StaticCallers(fn)
+		if len(callers) == 0 {
+			return false
+		}
+		for _, c := range callers {
+			if _, isCall := c.(*ssa.Call); !isCall {
+				return false // go / defer: runs outside the caller's slot window
+			}
+			if !insideSlot(c.(ssa.Instruction), depth+1) {
+				return false
 			}
 		}
-		for _, e := range core.CallsTo(a.run, a.exit) {
-			if _, d := e.(*ssa.Defer); !d && core.InstrReaches(e.(ssa.Instruction), ci) {
-				ok = false
-			}
-		}
-		r.Check(ok, "R9.5", "runner.(*target).run#"+m+"-inside-slot", p.InstrPos(ci), m+" runs after enter and before any exit", m+" can run without holding a slot: the parallelism limit is not respected")
+		return true
 	}
+	nWork := map[string]int{}
+	for _, f := range p.ModuleFuncs() {
+		if f.Pkg == nil || f.Pkg.Pkg.Path() != pkgRunner {
+			continue
+		}
+		for _, c := range core.Calls(f) {
+			cc := c.Common()
+			if !cc.IsInvoke() {
+				continue
+			}
+			m := cc.Method.Name()
+			if m != "LoadTarget" && m != "Evaluate" {
+				continue
+			}
+			ci := c.(ssa.Instruction)
+			nWork[m]++
+			_, isCall := c.(*ssa.Call)
+			r.Check(isCall && insideSlot(ci, 0), "R9.5", fname(f)+"#"+m+"-inside-slot", p.InstrPos(ci), m+" runs after enter and before any exit", m+" can run without holding a slot: the parallelism limit is not respected")
+		}
+	}
+	r.Floor("R9.5", nWork["LoadTarget"], 1, "LoadTarget invocations in package runner")
+	r.Floor("R9.5", nWork["Evaluate"], 1, "Evaluate invocations in package runner")
 	// R9.6
 	checkWaitOutsideSlot(p, r, a, "R9.6")
 	// R9.7
